@@ -572,7 +572,10 @@ Definition handle (r : realm) (s : session) (m : cmsg) (oracle : N) : realm * li
   | CCall req opts proc args kw =>
       match call (r_cfg r) (lookup r) (r_now r) (r_dealer r) s req opts proc args kw oracle with
       | CallRefused d o => (r_set_dealer r d, o)
-      | CallAbort o => let '(r1, o1) := leave r sid in (r1, o ++ o1)
+      | CallAbort o =>
+          (* the round-robin cursor may have moved before the violation was found *)
+          let ra := r_set_dealer r (call_abort_dealer (lookup r) (r_dealer r) s req opts proc oracle) in
+          let '(r1, o1) := leave ra sid in (r1, o ++ o1)
       | CallInvoked d callee o =>
           let r1 := update_session (r_set_dealer r d) callee in
           run_meta_invocation r1 o oracle
